@@ -531,7 +531,9 @@ def _configs3(full):
     exits2 = ("E1", "E2")
     def slots(child, exits):
         return [(child, e) for e in exits] + [(e, child) for e in exits]
-    O_opts = slots("N", exits2)
+    # the head's other successor may be the third test as well (the third test reachable from both of the
+    # first two: shapes like !(x && y) && z, where the inner merged node becomes a negated first operand)
+    O_opts = slots("N", exits2 + ("T",))
     N_opts = slots("T", ("E1", "E2", "E3") if full else exits2)
     T_opts = list(itertools.permutations(("E1", "E2", "E3"), 2)) if full else [("E1", "E2"), ("E2", "E1"), ("E1", "E3"), ("E3", "E2")]
     i = 0
@@ -543,34 +545,65 @@ def _configs3(full):
                     i += 1
 
 
+def _build3(repo, anchors, o, n, t, order, ops):
+    """-> (world, node after two successive merge steps | None)"""
+    w = World(repo)
+    P = w.stmt("P")
+    O = w.leaf("O", ops[0])
+    N = w.leaf("N", ops[1])
+    T = w.leaf("T", ops[2])
+    E = {k: w.stmt(k) for k in ("E1", "E2", "E3")}
+    pick = dict(E, N=N, T=T, O=O)
+    w.graph.attrs["entry"] = P
+    w.edge(P, O)
+    w.wire("O", pick[o[0]], pick[o[1]])
+    w.wire("N", pick[n[0]], pick[n[1]])
+    w.wire("T", pick[t[0]], pick[t[1]])
+    first = w.merge_step(anchors, N if order == "inner-first" else O)
+    if first is None:
+        return w, None
+    # the head of the remaining chain: O (if N,T were merged) or the merged node (if O,N were merged)
+    head = O if order == "inner-first" else first
+    return w, w.merge_step(anchors, head)
+
+
 def check_three_nodes(sink, repo, anchors, full):
     f = anchors.scs
+    shapes, negged = set(), set()
     for i, (o, n, t, order) in _configs3(full):
         ops = (_OPL[i % 6], _OPL[(i // 6 + 1) % 6], _OPL[(i // 36 + 3) % 6])
-        w = World(repo)
-        P = w.stmt("P")
-        O = w.leaf("O", ops[0])
-        N = w.leaf("N", ops[1])
-        T = w.leaf("T", ops[2])
-        E = {k: w.stmt(k) for k in ("E1", "E2", "E3")}
-        pick = dict(E, N=N, T=T, O=O)
-        w.graph.attrs["entry"] = P
-        w.edge(P, O)
-        w.wire("O", pick[o[0]], pick[o[1]])
-        w.wire("N", pick[n[0]], pick[n[1]])
-        w.wire("T", pick[t[0]], pick[t[1]])
         sink.count("configs3")
-        first = w.merge_step(anchors, N if order == "inner-first" else O)
-        if first is None:
-            continue
-        # the head of the remaining chain: O (if N,T were merged) or the merged node (if O,N were merged)
-        head = O if order == "inner-first" else first
-        second = w.merge_step(anchors, head)
+        w, second = _build3(repo, anchors, o, n, t, order, ops)
         if second is None:
             continue
         sink.count("merges3")
         desc = "O(true=%s,false=%s) N(true=%s,false=%s) T(true=%s,false=%s) %s" % (o + n + t + (order,))
-        _check_merged(sink, w, second, ["O", "N", "T"], "chain %s ops %s" % (desc, ops), f, "chains-3", desc)
+        ok, text = _check_merged(sink, w, second, ["O", "N", "T"], "chain %s ops %s" % (desc, ops), f, "chains-3", desc)
+        skeleton = (re.sub(r"[A-Za-z_]\w*\s*(==|!=|<=|>=|<|>)\s*[A-Za-z_]\w*", "c", text), order)
+        shapes.add(skeleton)
+        if not ok or (not full and skeleton in negged):
+            continue
+        negged.add(skeleton)
+        # neg contract of the nested condition, on a fresh identical double merge
+        w2, second2 = _build3(repo, anchors, o, n, t, order, ops)
+        try:
+            w2.it.call(w2.it.getattr(second2, "neg"), [])
+        except PyRaise as e:
+            raise AnalysisError("neg() of a nested merged condition raised %s in the model" % e)
+        t2 = w2.printed(second2)
+        e1, e2 = parse_cond(text), parse_cond(t2)
+        bad = None
+        for combo in itertools.product(STATES, repeat=3):
+            state = dict(zip(("O", "N", "T"), combo))
+            if eval_cond(e1, w.values(state)) == eval_cond(e2, w2.values(state)):
+                bad = state
+                break
+        sink.count("neg_cases3")
+        sink.check("neg-contract", "chain %s ops %s" % (desc, ops), bad is None, repo.mod(BB).func("Condition.neg"),
+                   "%s: `%s` after neg() prints `%s`" % (desc, text, t2),
+                   "neg() of the nested merged condition `%s` prints `%s`, which (read with Java precedence) is not its complement for %s" % (text, t2, bad),
+                   detail="`%s` -neg-> `%s` is the complement on all 27 order types" % (text, t2))
+    sink.count("chain_shapes", len(shapes))
 
 
 # --------------------------------------------------------------------------- writer pairing
